@@ -1593,4 +1593,475 @@ theorem nodeFold_seq (opts : Opts) (ms : Stmt) (ds : List (String × Entry)) :
     rw [he] at hpre
     exact ih _ _ (seqRel_step opts ms acc st d hr (List.prefix_nil.mp hpre)) he
 
+
+/-! #### the path lookup only ever adds empty rpc input / output nodes -/
+
+/-- `g` gives the node at `p` an input (output) it did not have and changes nothing else. -/
+theorem getAt_updateAt_addIO (root : Entry) (p : Path) (g : Entry → Entry)
+    (hd : ∀ e, (g e).d = e.d) (hdir : ∀ e, (g e).dir = e.dir) (e : Entry) (he : root.getAt p = some e)
+    (hio : ((g e).out = e.out ∧ e.inp = []) ∨ ((g e).inp = e.inp ∧ e.out = []))
+    (q : Path) (dd : EData) (h : (root.getAt q).map (·.d) = some dd) :
+    ((root.updateAt p g).getAt q).map (·.d) = some dd := by
+  have hst : NameStable p g := NameStable.of_forall fun e => by simp [Entry.name, hd e]
+  by_cases hpq : p <+: q
+  · obtain ⟨r, rfl⟩ := hpq
+    rw [getAt_updateAt_append g p hst root r]
+    rw [getAt_append p root r] at h
+    rw [he] at h ⊢
+    simp only [Option.bind_some, Option.map_some] at h ⊢
+    cases r with
+    | nil => simpa [Entry.getAt, hd e] using h
+    | cons s r =>
+      cases s with
+      | child k => simpa [Entry.getAt, Entry.child?, hdir e] using h
+      | input =>
+        rcases hio with ⟨_, hi⟩ | ⟨hi, _⟩
+        · simp [Entry.getAt, hi] at h
+        · simpa [Entry.getAt, hi] using h
+      | output =>
+        rcases hio with ⟨ho, _⟩ | ⟨_, ho⟩
+        · simpa [Entry.getAt, ho] using h
+        · simp [Entry.getAt, ho] at h
+  · rw [getAt_updateAt_frame g p q hst root hpq]; exact h
+
+/-- **Frame of the step loop of `Find`**: every location that exists keeps its data. -/
+theorem walkParts_frame : ∀ (parts : List String) (root : Entry) (cur : Option Path) (q : Path) (dd : EData),
+    (root.getAt q).map (·.d) = some dd → ((walkParts parts root cur).2.getAt q).map (·.d) = some dd
+  | [], root, cur, q, dd, h => by simpa [walkParts] using h
+  | part :: rest, root, cur, q, dd, h => by
+    unfold walkParts
+    cases cur with
+    | none => simpa using h
+    | some p =>
+      simp only
+      cases he : root.getAt p with
+      | none => simpa using h
+      | some e =>
+        simp only
+        split
+        · exact walkParts_frame rest root _ q dd h
+        · split
+          · exact walkParts_frame rest root _ q dd h
+          · split
+            · split
+              · apply walkParts_frame rest _ _ q dd
+                split
+                · next hemp =>
+                  refine getAt_updateAt_addIO root p _ ?_ ?_ e he ?_ q dd h
+                  · intro x; cases x; rfl
+                  · intro x; cases x; rfl
+                  · cases e with
+                    | mk d c i o => left; exact ⟨rfl, by simpa [Entry.inp] using hemp⟩
+                · exact h
+              · split
+                · apply walkParts_frame rest _ _ q dd
+                  split
+                  · next hemp =>
+                    refine getAt_updateAt_addIO root p _ ?_ ?_ e he ?_ q dd h
+                    · intro x; cases x; rfl
+                    · intro x; cases x; rfl
+                    · cases e with
+                      | mk d c i o => right; exact ⟨rfl, by simpa [Entry.out] using hemp⟩
+                  · exact h
+                · simpa using h
+            · split
+              · exact walkParts_frame rest root _ q dd h
+              · split
+                · simpa using h
+                · split
+                  · exact walkParts_frame rest root _ q dd h
+                  · exact walkParts_frame rest root _ q dd h
+
+
+theorem obs_setTree_walk (f : Forest) (t : Nat) (root : Entry) (hroot : f.tree? t = some root) (parts : List String)
+    (cur : Option Path) (t' : Nat) (q : Path) (dd : EData) (h : obs f t' q = some dd) :
+    obs (f.setTree t (walkParts parts root cur).2) t' q = some dd := by
+  unfold obs at h ⊢
+  by_cases ht : t' = t
+  · subst ht
+    rw [tree?_setTree_same f t' _ root hroot]
+    rw [hroot] at h
+    exact walkParts_frame parts root cur q dd h
+  · rw [tree?_setTree_other f t t' _ ht]; exact h
+
+/-- Node data with the list of recorded errors blanked: a failed path lookup records an error on the
+root entry of the tree it started in (the deviating module's own tree), which nothing reads later. -/
+def eraseErr (d : EData) : EData := { d with errors := [] }
+
+/-- What is seen at a location, recorded errors aside. -/
+def obsE (f : Forest) (t : Nat) (q : Path) : Option EData := (obs f t q).map eraseErr
+
+theorem obsE_of_obs {f f' : Forest} {t : Nat} {q : Path}
+    (h : ∀ dd, obs f t q = some dd → obs f' t q = some dd) (dd : EData) (he : obsE f t q = some dd) :
+    obsE f' t q = some dd := by
+  unfold obsE at he ⊢
+  cases ho : obs f t q with
+  | none => simp [ho] at he
+  | some d' => rw [h d' ho]; rw [ho] at he; exact he
+
+theorem getAt_withD (e : Entry) (g : EData → EData) (s : Step) (r : Path) : (e.withD g).getAt (s :: r) = e.getAt (s :: r) := by
+  cases e; cases s <;> rfl
+
+/-- **Frame of `Find`**: every location of the forest that exists keeps its data (the lookup may
+create empty rpc input / output nodes on its way, and a lookup that fails on the prefix records an
+error on the root it started from; nothing else). -/
+theorem find_frame (reg : Registry) (f : Forest) (start : Loc) (ctx : Nat) (name : String) (t' : Nat) (q : Path) (dd : EData)
+    (h : obsE f t' q = some dd) : obsE (find reg f start ctx name).2 t' q = some dd := by
+  have hwalk : ∀ (t : Nat) (root : Entry), f.tree? t = some root → ∀ parts cur,
+      obsE (f.setTree t (walkParts parts root cur).2) t' q = some dd := fun t root hroot parts cur =>
+    obsE_of_obs (fun d' hd => obs_setTree_walk f t root hroot parts cur t' q d' hd) dd h
+  unfold find
+  split
+  · exact h
+  · simp only
+    split
+    · split
+      · split
+        · next root hroot =>
+          simp only
+          unfold obsE obs at h ⊢
+          by_cases ht : t' = start.1
+          · subst ht
+            rw [tree?_setTree_same f _ _ root hroot]
+            rw [hroot] at h
+            cases q with
+            | nil =>
+              have he : eraseErr (root.addErr (Err.bare "other")).d = eraseErr root.d := by cases root; rfl
+              simpa [Entry.getAt, he] using h
+            | cons s r => simpa [Entry.addErr, getAt_withD] using h
+          · rw [tree?_setTree_other f _ t' _ ht]; exact h
+        · exact h
+      · split
+        · exact h
+        · next root hroot => exact hwalk _ root hroot _ _
+    · split
+      · exact h
+      · next root hroot => exact hwalk _ root hroot _ _
+
+
+/-! #### all deviations of one module -/
+
+/-- The locations the deviation statements of a module resolve to, in the order `applyDeviations`
+resolves them (each in the forest the earlier ones left behind). -/
+def targetsFrom (reg : Registry) (opts : Opts) (m : Mod) :
+    List (Stmt × List (String × Entry)) → Forest × List Err → List Loc
+  | [], _ => []
+  | dv :: rest, acc =>
+    (match (find reg acc.1 (m.seq, []) m.seq dv.1.arg).1 with
+      | some loc => [loc]
+      | none => []) ++ targetsFrom reg opts m rest (outerStep reg opts m acc dv)
+
+/-- `outerStep` with the lookup result named. -/
+theorem outerStep_eq (reg : Registry) (opts : Opts) (m : Mod) (f : Forest) (errs : List Err) (dstmt : Stmt)
+    (deviates : List (String × Entry)) :
+    outerStep reg opts m (f, errs) (dstmt, deviates) =
+      (let r := find reg f (m.seq, []) m.seq dstmt.arg
+       match r.1 with
+       | none => (r.2, errs ++ [Err.bare "deviate-no-target"])
+       | some (t, path) =>
+         match (r.2.tree? t).bind (·.getAt path) with
+         | none => (r.2, errs ++ [Err.bare "deviate-no-target"])
+         | some node0 =>
+           let x := deviates.foldl (innerStep opts m t path) (r.2, node0, false, errs)
+           (x.1, x.2.2.2)) := by
+  unfold outerStep
+  generalize hr : find reg f (m.seq, []) m.seq dstmt.arg = r
+  obtain ⟨target, f'⟩ := r
+  cases target with
+  | none => simp only [hr]
+  | some loc => obtain ⟨t, path⟩ := loc; simp only [hr]
+
+theorem outerStep_frame (reg : Registry) (opts : Opts) (m : Mod) (acc : Forest × List Err) (dv : Stmt × List (String × Entry))
+    (t' : Nat) (q : Path) (dd : EData) (h : obsE acc.1 t' q = some dd)
+    (hq : ∀ loc, (find reg acc.1 (m.seq, []) m.seq dv.1.arg).1 = some loc → ¬ (loc.1 = t' ∧ loc.2 <+: q)) :
+    obsE (outerStep reg opts m acc dv).1 t' q = some dd := by
+  obtain ⟨f, errs⟩ := acc
+  obtain ⟨dstmt, deviates⟩ := dv
+  rw [outerStep_eq]
+  simp only at hq h ⊢
+  have hf := find_frame reg f (m.seq, []) m.seq dstmt.arg t' q dd h
+  generalize find reg f (m.seq, []) m.seq dstmt.arg = r at hq hf ⊢
+  obtain ⟨target, f'⟩ := r
+  simp only at hq hf ⊢
+  cases target with
+  | none => exact hf
+  | some loc =>
+    obtain ⟨t, path⟩ := loc
+    simp only
+    cases hn : (f'.tree? t).bind (·.getAt path) with
+    | none => exact hf
+    | some node0 =>
+      simp only
+      have hnamed : PathNamed path node0 := by
+        cases hroot : f'.tree? t with
+        | none => simp [hroot] at hn
+        | some root => rw [hroot] at hn; exact pathNamed_of_getAt path root node0 hn
+      have hcond : t' ≠ t ∨ ¬ path <+: q := by
+        have := hq (t, path) rfl
+        by_cases ht : t' = t
+        · right; intro hp; exact this ⟨ht.symm, hp⟩
+        · left; exact ht
+      unfold obsE at hf ⊢
+      rw [innerFold_frame opts m t path deviates (f', node0, false, errs) hnamed t' q hcond]
+      exact hf
+
+/-- **Frame of all deviations of one module**: a location that exists before and that is neither a
+target nor below a target shows the same data afterwards (recorded errors aside). -/
+theorem applyDeviations_frame' (reg : Registry) (opts : Opts) (m : Mod) (t' : Nat) (q : Path) (dd : EData) :
+    ∀ (devs : List (Stmt × List (String × Entry))) (acc : Forest × List Err),
+      obsE acc.1 t' q = some dd →
+      (∀ loc ∈ targetsFrom reg opts m devs acc, ¬ (loc.1 = t' ∧ loc.2 <+: q)) →
+      obsE (devs.foldl (outerStep reg opts m) acc).1 t' q = some dd := by
+  intro devs
+  induction devs with
+  | nil => intro acc h _; exact h
+  | cons dv rest ih =>
+    intro acc h hq
+    simp only [List.foldl_cons]
+    apply ih
+    · apply outerStep_frame reg opts m acc dv t' q dd h
+      intro loc hloc
+      apply hq
+      simp only [targetsFrom, hloc, List.mem_append, List.mem_singleton, true_or]
+    · intro loc hloc
+      apply hq
+      simp only [targetsFrom, List.mem_append]
+      exact Or.inr hloc
+
+/-! #### what a module's deviations report -/
+
+theorem outerStep_errs_prefix (reg : Registry) (opts : Opts) (m : Mod) (acc : Forest × List Err)
+    (dv : Stmt × List (String × Entry)) : acc.2 <+: (outerStep reg opts m acc dv).2 := by
+  obtain ⟨f, errs⟩ := acc
+  obtain ⟨dstmt, deviates⟩ := dv
+  rw [outerStep_eq]
+  simp only
+  generalize find reg f (m.seq, []) m.seq dstmt.arg = r
+  obtain ⟨target, f'⟩ := r
+  cases target with
+  | none => exact List.prefix_append _ _
+  | some loc =>
+    obtain ⟨t, path⟩ := loc
+    simp only
+    cases hn : (f'.tree? t).bind (·.getAt path) with
+    | none => exact List.prefix_append _ _
+    | some node0 =>
+      simp only
+      have h1 := innerFold_node opts m t path deviates (f', node0, false, errs)
+      rw [show (List.foldl (innerStep opts m t path) (f', node0, false, errs) deviates).2.2.2 =
+        (nodeFold opts m.stmt (!path.isEmpty) (node0, false, errs) deviates).2.2 from by rw [h1]]
+      exact nodeFold_errs_prefix opts m.stmt _ deviates (node0, false, errs)
+
+theorem outerFold_errs_prefix (reg : Registry) (opts : Opts) (m : Mod) (devs : List (Stmt × List (String × Entry))) :
+    ∀ acc : Forest × List Err, acc.2 <+: (devs.foldl (outerStep reg opts m) acc).2 := by
+  induction devs with
+  | nil => intro acc; exact List.prefix_refl _
+  | cons dv rest ih =>
+    intro acc
+    simp only [List.foldl_cons]
+    exact List.IsPrefix.trans (outerStep_errs_prefix reg opts m acc dv) (ih _)
+
+theorem ne_nil_of_prefix {α} {a b : List α} (h : a <+: b) (ha : a ≠ []) : b ≠ [] := by
+  intro hb; rw [hb] at h; exact ha (List.prefix_nil.mp h)
+
+/-- A deviation statement that reports makes the module's deviations report. -/
+theorem applyDeviations_reports (reg : Registry) (opts : Opts) (m : Mod) (f : Forest)
+    (pre post : List (Stmt × List (String × Entry))) (dv : Stmt × List (String × Entry))
+    (h : (outerStep reg opts m (pre.foldl (outerStep reg opts m) (f, [])) dv).2 ≠ []) :
+    (applyDeviations reg opts m (pre ++ dv :: post) f).2 ≠ [] := by
+  rw [applyDeviations_eq, List.foldl_append, List.foldl_cons]
+  exact ne_nil_of_prefix (outerFold_errs_prefix reg opts m post _) h
+
+/-- Missing target: the lookup finds nothing (or finds a location that does not exist). -/
+theorem outerStep_reports_missing (reg : Registry) (opts : Opts) (m : Mod) (acc : Forest × List Err)
+    (dv : Stmt × List (String × Entry))
+    (h : ∀ loc, (find reg acc.1 (m.seq, []) m.seq dv.1.arg).1 = some loc →
+      ((find reg acc.1 (m.seq, []) m.seq dv.1.arg).2.tree? loc.1).bind (·.getAt loc.2) = none) :
+    (outerStep reg opts m acc dv).2 ≠ [] := by
+  obtain ⟨f, errs⟩ := acc
+  obtain ⟨dstmt, deviates⟩ := dv
+  rw [outerStep_eq]
+  simp only at h ⊢
+  generalize find reg f (m.seq, []) m.seq dstmt.arg = r at h
+  obtain ⟨target, f'⟩ := r
+  cases target with
+  | none => simp
+  | some loc =>
+    obtain ⟨t, path⟩ := loc
+    simp only at h ⊢
+    rw [h (t, path) rfl]
+    simp
+
+/-- A deviate statement that reports, at its turn, makes its deviation report. -/
+theorem outerStep_reports_stmt (reg : Registry) (opts : Opts) (m : Mod) (acc : Forest × List Err) (dstmt : Stmt)
+    (pre post : List (String × Entry)) (d : String × Entry) (t : Nat) (path : Path) (node0 : Entry)
+    (hfind : (find reg acc.1 (m.seq, []) m.seq dstmt.arg).1 = some (t, path))
+    (hnode : ((find reg acc.1 (m.seq, []) m.seq dstmt.arg).2.tree? t).bind (·.getAt path) = some node0)
+    (h : (applyOneDeviate opts m.stmt d.1 d.2 (!path.isEmpty)
+      (nodeFold opts m.stmt (!path.isEmpty) (node0, false, acc.2) pre).1).2.2 ≠ []) :
+    (outerStep reg opts m acc (dstmt, pre ++ d :: post)).2 ≠ [] := by
+  obtain ⟨f, errs⟩ := acc
+  rw [outerStep_eq]
+  simp only at hfind hnode h ⊢
+  generalize find reg f (m.seq, []) m.seq dstmt.arg = r at hfind hnode
+  obtain ⟨target, f'⟩ := r
+  simp only at hfind hnode ⊢
+  subst hfind
+  simp only [hnode]
+  have h1 := innerFold_node opts m t path (pre ++ d :: post) (f', node0, false, errs)
+  rw [show (List.foldl (innerStep opts m t path) (f', node0, false, errs) (pre ++ d :: post)).2.2.2 =
+    (nodeFold opts m.stmt (!path.isEmpty) (node0, false, errs) (pre ++ d :: post)).2.2 from by rw [h1]]
+  exact nodeFold_reports opts m.stmt _ (node0, false, errs) pre post d h
+
+
+/-! ### the deviation stage of `processAll` -/
+
+/-- The order in which `processAll` visits the modules for their deviations: keys of the module map
+in sorted order, then keys of the submodule map. -/
+def devOrderOf (reg : Registry) : List Mod :=
+  let keys (km : KeyMap) := (sortBy (fun (a b : String × Nat) => a.1 < b.1) km).filterMap fun kv => reg.byId kv.2
+  keys reg.modules ++ keys reg.subModules
+
+/-- The deviation statements of a module with the entries of their deviate statements, in written
+order (statements with an unknown argument are reported when the module is converted and dropped here). -/
+def devsOf (env : Env) (fuel : Nat) (m : Mod) : List (Stmt × List (String × Entry)) :=
+  (m.stmt.all "deviation").map fun dv =>
+    (dv, (dv.all "deviate").filterMap fun ds =>
+      if deviateKinds.contains ds.arg then some (ds.arg, (toEntry env fuel m [dv, m.stmt] ds [] {}).1) else none)
+
+/-- One module's turn (once per module name). -/
+def stageStep (reg : Registry) (opts : Opts) (env : Env) (fuel : Nat) (acc : Forest × List Err × List String) (m : Mod) :
+    Forest × List Err × List String :=
+  if acc.2.2.contains m.name then acc else
+  let r := applyDeviations reg opts m (devsOf env fuel m) acc.1
+  (r.1, acc.2.1 ++ r.2, acc.2.2 ++ [m.name])
+
+def deviationStage (reg : Registry) (opts : Opts) (env : Env) (fuel : Nat) (f0 : Forest) : Forest × List Err × List String :=
+  (devOrderOf reg).foldl (stageStep reg opts env fuel) (f0, [], [])
+
+theorem ne_nil_of_not_isEmpty {α} {l : List α} (h : (!l.isEmpty) = true) : l ≠ [] := by
+  intro he; subst he; simp at h
+
+/-- `processAll` ends early with the errors of the earlier stages, or runs the deviation stage on
+the forest the earlier stages built and returns its forest and, canonically ordered, the errors so
+far plus those of the deviations. -/
+theorem processAll_cases (reg : Registry) (opts : Opts) (plug : Plug) :
+    (∃ errs, errs ≠ [] ∧ (processAll reg opts plug).errors = canonErrs errs) ∨
+    (∃ (env : Env) (f0 : Forest) (errs0 : List Err), env.reg = reg ∧ env.opts = opts ∧ env.tres = plug.tres ∧
+      (processAll reg opts plug).errors = canonErrs (errs0 ++ (deviationStage reg opts env (entryFuel reg) f0).2.1) ∧
+      (processAll reg opts plug).forest = (deviationStage reg opts env (entryFuel reg) f0).1) := by
+  unfold processAll
+  generalize linkAll reg = l
+  obtain ⟨linked, lerrs⟩ := l
+  simp only []
+  split
+  · next h => left; exact ⟨_, ne_nil_of_not_isEmpty h, rfl⟩
+  · split
+    · next h => left; exact ⟨_, ne_nil_of_not_isEmpty h, rfl⟩
+    · right
+      exact ⟨{ reg := reg, opts := opts, tres := plug.tres, linked := linked }, _, _, rfl, rfl, rfl, rfl, rfl⟩
+
+
+theorem insertBy_ne_nil {α} (lt : α → α → Bool) (x : α) (l : List α) : insertBy lt x l ≠ [] := by
+  cases l with
+  | nil => simp [insertBy]
+  | cons y ys => unfold insertBy; split <;> simp
+
+theorem canonErrs_ne_nil {es : List Err} (h : es ≠ []) : canonErrs es ≠ [] := by
+  cases es with
+  | nil => exact absurd rfl h
+  | cons a t =>
+    unfold canonErrs
+    simp only [sortBy, List.foldr_cons]
+    generalize hs : insertBy _ a (List.foldr _ [] t) = s
+    cases s with
+    | nil => exact absurd hs (insertBy_ne_nil _ _ _)
+    | cons b u => simp [List.eraseDups_cons]
+
+theorem stageStep_errs_prefix (reg : Registry) (opts : Opts) (env : Env) (fuel : Nat) (acc : Forest × List Err × List String)
+    (m : Mod) : acc.2.1 <+: (stageStep reg opts env fuel acc m).2.1 := by
+  unfold stageStep
+  split
+  · exact List.prefix_refl _
+  · exact List.prefix_append _ _
+
+theorem stageFold_errs_prefix (reg : Registry) (opts : Opts) (env : Env) (fuel : Nat) (mods : List Mod) :
+    ∀ acc : Forest × List Err × List String, acc.2.1 <+: (mods.foldl (stageStep reg opts env fuel) acc).2.1 := by
+  induction mods with
+  | nil => intro acc; exact List.prefix_refl _
+  | cons m rest ih =>
+    intro acc
+    simp only [List.foldl_cons]
+    exact List.IsPrefix.trans (stageStep_errs_prefix reg opts env fuel acc m) (ih _)
+
+theorem stageStep_new (reg : Registry) (opts : Opts) (env : Env) (fuel : Nat) (acc : Forest × List Err × List String) (m : Mod)
+    (h : acc.2.2.contains m.name = false) :
+    stageStep reg opts env fuel acc m =
+      ((applyDeviations reg opts m (devsOf env fuel m) acc.1).1,
+       acc.2.1 ++ (applyDeviations reg opts m (devsOf env fuel m) acc.1).2, acc.2.2 ++ [m.name]) := by
+  unfold stageStep; rw [if_neg (by rw [h]; simp)]
+
+/-- A module whose deviations report, at its turn, makes the stage report. -/
+theorem stage_reports (reg : Registry) (opts : Opts) (env : Env) (fuel : Nat) (f0 : Forest) (pre post : List Mod) (m : Mod)
+    (hsplit : devOrderOf reg = pre ++ m :: post)
+    (hnew : (pre.foldl (stageStep reg opts env fuel) (f0, [], [])).2.2.contains m.name = false)
+    (h : (applyDeviations reg opts m (devsOf env fuel m) (pre.foldl (stageStep reg opts env fuel) (f0, [], [])).1).2 ≠ []) :
+    (deviationStage reg opts env fuel f0).2.1 ≠ [] := by
+  unfold deviationStage
+  rw [hsplit, List.foldl_append, List.foldl_cons]
+  apply ne_nil_of_prefix (stageFold_errs_prefix reg opts env fuel post _)
+  rw [stageStep_new reg opts env fuel _ m hnew]
+  intro he
+  exact h (List.append_eq_nil_iff.mp he).2
+
+/-- The targets of the whole stage, module by module, each resolved at its turn. -/
+def stageTargets (reg : Registry) (opts : Opts) (env : Env) (fuel : Nat) : List Mod → Forest × List Err × List String → List Loc
+  | [], _ => []
+  | m :: rest, acc =>
+    (if acc.2.2.contains m.name then [] else targetsFrom reg opts m (devsOf env fuel m) (acc.1, [])) ++
+      stageTargets reg opts env fuel rest (stageStep reg opts env fuel acc m)
+
+/-- **Frame of the deviation stage.** -/
+theorem stage_frame (reg : Registry) (opts : Opts) (env : Env) (fuel : Nat) (t' : Nat) (q : Path) (dd : EData) :
+    ∀ (mods : List Mod) (acc : Forest × List Err × List String),
+      obsE acc.1 t' q = some dd →
+      (∀ loc ∈ stageTargets reg opts env fuel mods acc, ¬ (loc.1 = t' ∧ loc.2 <+: q)) →
+      obsE (mods.foldl (stageStep reg opts env fuel) acc).1 t' q = some dd := by
+  intro mods
+  induction mods with
+  | nil => intro acc h _; exact h
+  | cons m rest ih =>
+    intro acc h hq
+    simp only [List.foldl_cons]
+    apply ih
+    · cases hc : acc.2.2.contains m.name with
+      | true => unfold stageStep; simp only [hc, if_true]; exact h
+      | false =>
+        rw [stageStep_new reg opts env fuel acc m hc, applyDeviations_eq]
+        apply applyDeviations_frame' reg opts m t' q dd _ (acc.1, []) h
+        intro loc hloc
+        apply hq
+        simp only [stageTargets, hc, List.mem_append]
+        exact Or.inl (by simpa using hloc)
+    · intro loc hloc
+      apply hq
+      simp only [stageTargets, List.mem_append]
+      exact Or.inr hloc
+
+/-- A clean `processAll` ran the deviation stage, the stage reported nothing, and the forest
+returned is the stage's. -/
+theorem processAll_clean (reg : Registry) (opts : Opts) (plug : Plug) (h : (processAll reg opts plug).errors = []) :
+    ∃ (env : Env) (f0 : Forest), env.reg = reg ∧ env.opts = opts ∧ env.tres = plug.tres ∧
+      (deviationStage reg opts env (entryFuel reg) f0).2.1 = [] ∧
+      (processAll reg opts plug).forest = (deviationStage reg opts env (entryFuel reg) f0).1 := by
+  rcases processAll_cases reg opts plug with ⟨errs, hne, he⟩ | ⟨env, f0, errs0, h1, h2, h3, he, hf⟩
+  · rw [he] at h; exact absurd h (canonErrs_ne_nil hne)
+  · refine ⟨env, f0, h1, h2, h3, ?_, hf⟩
+    rw [he] at h
+    cases hs : (deviationStage reg opts env (entryFuel reg) f0).2.1 with
+    | nil => rfl
+    | cons a t =>
+      rw [hs] at h
+      exact absurd h (canonErrs_ne_nil (by simp))
+
 end Goyang.Lemmas.Deviate
